@@ -51,6 +51,7 @@ CONSTANTS
     U32Q, U32R,     \* 2^32 = U32Q * StepSec + U32R   (uint32 wrap in calcBudget)
     Ticks, Clock0,  \* clock increments (the clock never steps back: "clock progression")
     MaxOps, MaxSnaps, MaxClock,
+    ExportFrom,     \* behaviours shorter than this are not printed by Export
     WithPost,       \* TRUE: every step of `hist` carries the projected state (behaviour export)
     Bugs            \* {} = the code as repaired; see above
 
@@ -508,5 +509,5 @@ FloodRowBelowCredit == exhausted => \A m \in DOMAIN db.flood : db.flood[m].free 
 FloodTimesRounded == \A m \in DOMAIN db.flood : db.flood[m].last <= RoundTime(clock)
 ChargedWhenExhausted == exhausted => ~(lastCreated > 0 /\ lastCreated <= GlobalBudget)
 
-Export == PrintT(<<"BEH", ToJson(hist')>>)
+Export == Len(hist') >= ExportFrom => PrintT(<<"BEH", ToJson(hist')>>)
 ===============================================================================
